@@ -49,6 +49,11 @@ ASSUMPTIONS = ["tone amplitude 1, noise 1e-3; real sinusoids at least 4 main-lob
                "threshold 1e9 (NSIG 0 -> 1) for one complex exponential, explicit NSIG as above",
                "option maxima (short records, 12..17 samples): generic noisy records only (no derived scaled / degenerate records: the fits "
                "are exactly determined or nearly so); adaptive multitaper with k >= 2",
+               "amplitude: MUSIC / EV on records scaled by 1e-190 .. 1e158 (measured exact on the unchanged library from 1e-200 to 1e165); the "
+               "other classes form products of samples: records ALL of whose samples are below ~1e-162 or above ~1e154 are outside the float "
+               "range there (ruling, DESIGN 0.9) - generated at 1e-140 .. 1e140 (measured exact from 1e-150 to 1e150); parma at 1e-30 / 1e30 "
+               "only (measured exact from 1e-40 to 1e30; outside: maximum 2 bins off at 1e-50, nan / inf below 1e-80 and above 1e40 - "
+               "pending finding /tmp/finding_C02.py)",
                "shape clause through constructor defaults: list / integer / float32 / complex-with-zero-imaginary data, integer "
                "sampling, numpy-integer NFFT, o() and o.run() entry points, N in 6..16 with minimal orders"]
 RULE = ("14 estimator class variants x real/complex x N in {32,33,47,64} x NFFT in {None, nextpow2, 64, 65, 2N, 2N+1, 97} (full product "
@@ -63,7 +68,11 @@ RULE = ("14 estimator class variants x real/complex x N in {32,33,47,64} x NFFT 
         "tone clause where stated, and for a third of the noisy records the class estimate against the functional API called with the "
         "same selection arguments folded by the model; every class at the maxima of its option ranges on records of 12..17 samples "
         "(lag N-1, Burg order N-2, Yule-Walker N-1, covariance N/2-1, minimum variance N/2, ARMA / MA longest lag, MUSIC / EV order 2N/3 "
-        "with NSIG 0, 1, P-1, multitaper NW just below N/2 with k = 1, 2, 2NW); non-trivial = all")
+        "with NSIG 0, 1, P-1, multitaper NW just below N/2 with k = 1, 2, 2NW); records of extreme amplitude (kind `scale`): MUSIC / EV x "
+        "real/complex x tone records (default order or any subspace choice inside the tone clause's domain) and noise records scaled by "
+        "1e-190, 1e-170, 1e-165, 1e-150, 1e140, 1e155, 1e158 (these two never multiply two samples), every other class x tone records "
+        "scaled by 1e-140, 1e-100, 1e100, 1e140 (parma: 1e-30, 1e30, pending finding): shape clause and the tone clause with the allowed "
+        "distance of amplitude 1; non-trivial = all")
 
 SIDES = ["onesided", "twosided", "centerdc"]
 
@@ -793,6 +802,85 @@ def _sub_cases(nrng, quick):
             yield ("subshape", p)
 
 
+# ---- amplitude of the record: the clauses are statements about WHERE values sit, not about their size -------------------------------
+# MUSIC / EV never form a product of two samples (singular value decomposition of the data matrix itself, unit-norm noise vectors; EV
+# divides by the singular values, not by their squares): measured on the unchanged library, pmusic / pev give a real, finite PSD with
+# the maximum on the tone's own entry for records scaled by every power of ten from 1e-200 to 1e165 (18 scales x real/complex x 3
+# (N, NFFT) pairs, and seeds 0..11 of this generator: 0 bins off everywhere) -> generated at 1e-190 .. 1e158, real / complex, default
+# orders and every way of choosing the subspace inside the tone clause's domain (_tone_cfg), plus noise records (shape clause only).
+# The other classes square the samples themselves (lag products, periodogram, prediction error powers): records ALL of whose samples
+# are below ~1e-162 or above ~1e154 legitimately under/overflow there (ruling in DESIGN.md 0.9: float range).  Measured, unchanged
+# library, same grid: every class but parma is exact (same allowed distance as at amplitude 1) from 1e-150 to 1e150 (Burg / minimum
+# variance fail from 1e-155 down, Periodogram / covariance from 1e153 up) -> generated at 1e-140, 1e-100, 1e100, 1e140, a factor
+# >= 1e10 inside the measured range on both sides.  The oracles and allowed distances are those of the `tone` kind, unchanged.
+# RULING (float range at fourth order: arma_estimate forms products of correlation lags, i.e. amplitude^4; exact for amplitudes 1e-40 .. 1e30; DESIGN 0.9) (parma, /tmp/finding_C02.py): parma is exact for 1e-40 <= scale <= 1e30 only: at 1e-50 the maximum of a real
+# sinusoid moves 2 bins, at 1e-80 and below / at 1e40 (real) and 1e45 (complex) and above the PSD is all nan / inf - although the
+# squares of the samples are far inside the float range.  parma is generated at 1e-30 and 1e30 only until this is ruled on.
+SCALES_SUBSPACE = [1e-190, 1e-170, 1e-165, 1e-150, 1e140, 1e155, 1e158]
+SCALES_OTHER = [1e-140, 1e-100, 1e100, 1e140]
+SCALES_PARMA = [1e-30, 1e30]          # RULING (float range at fourth order: arma_estimate forms products of correlation lags, i.e. amplitude^4; exact for amplitudes 1e-40 .. 1e30; DESIGN 0.9): see above
+
+
+def oracle_scale(p):
+    """shape clause, then (tone records) the tone clause with the allowed distance of the `tone` kind.  Floating-point warnings are
+    silenced for the call (denormal intermediate results are not an error; a non-finite value in the PSD is reported by the oracle)"""
+    with np.errstate(all="ignore"):
+        out = oracle_shape(p)
+        if "k" in p and not out and p["cls"] != "pma":
+            out += oracle_tone(p)
+    return ["record scaled by %g: %s" % (p["scale"], m) for m in out]
+
+
+def _scale_tags(p):
+    return _tags(p) + ["scale:%g" % p["scale"], "record:" + ("tone" if "k" in p else "noise")]
+
+
+KINDS["scale"] = {"oracle": oracle_scale, "key": lambda p: "scale|%g|%s" % (p["scale"], _key(p)), "tags": _scale_tags}
+NO_VARY = NO_VARY | {"scale"}          # the amplitude is the parameter of the case
+NO_DEGEN = NO_DEGEN | {"scale"}
+
+
+def _scale_cases(nrng, quick):
+    reps = 1 if quick else 3
+    # MUSIC / EV: every scale x class x real/complex, default order or a subspace choice inside the tone clause's domain
+    for r in range(reps):
+        for j, s in enumerate(SCALES_SUBSPACE):
+            for ci, cls in enumerate(SUB_CLS):
+                for cplx in (True, False):
+                    N = _pick(nrng, [32, 33, 48])
+                    nf = _pick(nrng, NFFT6)
+                    nfft = C.resolved_nfft(np.zeros(N), nf)
+                    cfg = _tone_cfg(nrng, cls, N, cplx) if nrng.integers(0, 2) else None
+                    k = int(nrng.integers(-(nfft // 2) + 1, nfft // 2)) if cplx else \
+                        _real_k(nrng, cls, N, nfft, cfg or C.default_cfg(cls, N, False))
+                    p = {"cls": cls, "x": s * _tone_data(nrng, N, nfft, k, cplx), "nfft": nf, "fs": _pick(nrng, [1.0, 2.0, 250.0]),
+                         "k": k, "scale": s}
+                    if cfg is not None:
+                        p["cfg"] = cfg
+                    yield ("scale", p)
+            # a noise record (shape clause): explicit NSIG / criteria / moderate threshold
+            cls = SUB_CLS[(j + r) % 2]
+            cplx = bool(nrng.integers(0, 2))
+            N = _pick(nrng, [24, 25, 32, 33])
+            P = int(nrng.integers(3, 9))
+            cfg = [{"order": P, "nsig": int(nrng.integers(1, P - 1))}, {"order": P, "nsig": None, "criteria": "aic"},
+                   {"order": P, "nsig": None, "criteria": "mdl"}, {"order": P, "nsig": None, "threshold": 3}][int(nrng.integers(0, 4))]
+            yield ("scale", {"cls": cls, "x": s * C.test_data(nrng, N, cplx), "nfft": _pick(nrng, [None, 64, 65]),
+                             "fs": _pick(nrng, [1.0, 250.0]), "cfg": cfg, "scale": s})
+    # the other classes inside their measured range (pma: shape clause only, it is exempt from the tone clause)
+    for r in range(reps):
+        for i, cls in enumerate(c for c in C.CLASSES if c not in SUB_CLS):
+            scales = SCALES_PARMA if cls == "parma" else SCALES_OTHER
+            for j, s in enumerate(scales):
+                cplx = bool((i + j + r) % 2)
+                N = _pick(nrng, [32, 33, 48])
+                nf = _pick(nrng, NFFT6)
+                nfft = C.resolved_nfft(np.zeros(N), nf)
+                k = int(nrng.integers(-(nfft // 2) + 1, nfft // 2)) if cplx else _real_k(nrng, cls, N, nfft, C.default_cfg(cls, N, False))
+                yield ("scale", {"cls": cls, "x": s * _tone_data(nrng, N, nfft, k, cplx), "nfft": nf,
+                                 "fs": _pick(nrng, [1.0, 2.0, 250.0]), "k": k, "scale": s})
+
+
 # ---- boundary values of the option ranges of the other classes at short records (the caps of C.random_cfg(boundary=True) - order <= 12,
 # NW <= 4 - keep them away from N): lag = N-1, Burg order N-2, Yule-Walker order N-1, covariance orders N/2-1, minimum variance order
 # N/2, ARMA / MA at their longest lag, MUSIC / EV order 2N/3 with NSIG 1 and P-1, multitaper NW just below N/2 with k = 1, 2 and 2NW
@@ -980,4 +1068,7 @@ def gen(rng, nrng, tier):
         yield c
     # ---- the other classes at the maxima of their option ranges (short records)
     for c in _max_cases(nrng, quick):
+        yield c
+    # ---- records of extreme amplitude: MUSIC / EV over (almost) the whole float range, the other classes inside theirs
+    for c in _scale_cases(nrng, quick):
         yield c
